@@ -4,10 +4,12 @@ import (
 	"encoding/json"
 	"flag"
 	"fmt"
+	"go/ast"
 	"go/types"
 	"os"
 	"path/filepath"
 	"sort"
+	"strconv"
 	"strings"
 	"time"
 )
@@ -37,6 +39,7 @@ func main() {
 		replayF  = flag.String("replay", "", "replay file to re-run")
 		selftest = flag.Bool("canary", true, "run vacuity canaries")
 		genOpts  = flag.Bool("gen-options", false, "print the generated contract section for vflow.Options (C17)")
+		genNames = flag.Bool("gen-names", false, "rewrite the `names` line of every function contract in the hook files from the current source")
 		rf       = flag.Bool("rf", false, "development: replay failed obligations")
 	)
 	flag.Parse()
@@ -54,6 +57,10 @@ func main() {
 			os.Exit(1)
 		}
 		os.Exit(2)
+	}
+	if *genNames {
+		w.genNames(*repo)
+		return
 	}
 	if *genOpts {
 		sec, msg := w.optionsSection()
@@ -179,15 +186,22 @@ func (r *Runner) run(spec *PropSpec) *runResult {
 	res := &runResult{}
 	var keys []string
 	seen := map[string]bool{}
+	explicit := map[string]bool{}
 	for _, f := range spec.Funcs {
 		if r.w.FuncDecls[f] != nil {
 			if !seen[f] {
 				keys = append(keys, f)
 				seen[f] = true
 			}
+			explicit[f] = true
 			continue
 		}
 		m := r.resolveFuncs(f)
+		if !strings.HasSuffix(f, "*") {
+			for _, k := range m {
+				explicit[k] = true
+			}
+		}
 		if len(m) == 0 {
 			res.translate = append(res.translate, f+": function not found in the repository")
 		}
@@ -293,6 +307,12 @@ func (r *Runner) run(spec *PropSpec) *runResult {
 			res.skipped = append(res.skipped, shortKey(k)+": "+c.Opts["noverify"])
 			continue
 		}
+		if r.w.Contracts[k] == nil && !explicit[k] && r.w.isCalledHelper(k) {
+			// an unexported function without a written contract that the module calls: it is executed in
+			// place at each call site of a verified function, under the conditions that hold there
+			res.skipped = append(res.skipped, shortKey(k)+": no written contract; verified in place at its call sites")
+			continue
+		}
 		fc := r.w.verifyFunc(k)
 		res.ctxs = append(res.ctxs, fc)
 		if fc.translateFail != "" {
@@ -384,5 +404,89 @@ func (r *Runner) printSummary(res *runResult) {
 	fmt.Printf("obligations=%d ok=%d failed=%d translate-failures=%d solver=%dms wall=%.1fs (load %.1fs)\n", n, ok, n-ok, len(res.translate), res.solverMs, time.Since(r.t0).Seconds(), float64(r.loadMs)/1000)
 	for _, p := range r.w.Problems {
 		fmt.Println("PROBLEM", p)
+	}
+}
+
+// isCalledHelper: an unexported function or method of the repository that some other repository function calls.
+func (w *World) isCalledHelper(key string) bool {
+	if w.calledFuncs == nil {
+		w.calledFuncs = map[string]bool{}
+		for k, decl := range w.FuncDecls {
+			pkg := w.FuncPkg[k]
+			if pkg == nil || decl.Body == nil {
+				continue
+			}
+			ast.Inspect(decl.Body, func(n ast.Node) bool {
+				call, ok := n.(*ast.CallExpr)
+				if !ok {
+					return true
+				}
+				var id *ast.Ident
+				switch f := unparen(call.Fun).(type) {
+				case *ast.Ident:
+					id = f
+				case *ast.SelectorExpr:
+					id = f.Sel
+				}
+				if id != nil {
+					if fn, ok := pkg.TypesInfo.ObjectOf(id).(*types.Func); ok && fn.FullName() != k {
+						w.calledFuncs[fn.FullName()] = true
+					}
+				}
+				return true
+			})
+		}
+	}
+	fn := w.FuncObj[key]
+	return fn != nil && !fn.Exported() && w.calledFuncs[key]
+}
+
+// genNames writes, below every `//@ func` line of the hook files, the snapshot of the function's declared names.
+func (w *World) genNames(repo string) {
+	type edit struct {
+		line  int
+		names string
+	}
+	byFile := map[string][]edit{}
+	for key, c := range w.Contracts {
+		decl, pkg, obj := w.FuncDecls[key], w.FuncPkg[key], w.FuncObj[key]
+		if c.Trusted || decl == nil || pkg == nil || obj == nil {
+			continue
+		}
+		i := strings.LastIndex(c.Src, ":")
+		if i < 0 {
+			continue
+		}
+		ln, _ := strconv.Atoi(c.Src[i+1:])
+		file := filepath.Join(filepath.Dir(w.Fset.Position(decl.Pos()).Filename), filepath.Base(c.Src[:i]))
+		byFile[file] = append(byFile[file], edit{ln, strings.Join(declaredNames(decl, pkg.TypesInfo, obj), " ")})
+	}
+	for file, eds := range byFile {
+		raw, err := os.ReadFile(file)
+		if err != nil {
+			fmt.Fprintln(os.Stderr, "govc:", err)
+			continue
+		}
+		lines := strings.Split(string(raw), "\n")
+		at := map[int]string{}
+		for _, e := range eds {
+			at[e.line] = e.names
+		}
+		var out []string
+		for i := 0; i < len(lines); i++ {
+			out = append(out, lines[i])
+			if names, ok := at[i+1]; ok {
+				if i+1 < len(lines) && strings.HasPrefix(strings.TrimSpace(strings.TrimPrefix(lines[i+1], "//@")), "names") && strings.HasPrefix(lines[i+1], "//@") {
+					i++ // replace the old snapshot
+				}
+				if names != "" {
+					out = append(out, "//@   names "+names)
+				}
+			}
+		}
+		if err := os.WriteFile(file, []byte(strings.Join(out, "\n")), 0644); err != nil {
+			fmt.Fprintln(os.Stderr, "govc:", err)
+		}
+		fmt.Println("updated", file, len(eds), "contracts")
 	}
 }
